@@ -370,6 +370,12 @@ def c16_check(sc, res):
                 def reading(r):
                     x = {'enc': lambda: r['pos'][stop['sensor'][1]], 'tach': lambda: r['spd'][stop['sensor'][1]], 'amp': lambda: r['cur']}[stop['sensor'][0]]()
                     return F(x[0]) * S.factor(kind, x[1])
+                if not steps and n >= 1:
+                    # the condition is tested at each COMPUTED instant after the initial one: a run that computes none has ended on the
+                    # state it started from (the first instant of a fresh simulation / the last instant of the history is not tested)
+                    out.append(W('stop-before-first-step', f'the run with stop condition ({stop["sensor"]} {stop["op"]} {stop["thr"]}) computed none of its {n} steps: '
+                                 f'it ended on the instant it started from', sc))
+                    return out
                 for i, r in enumerate(steps):
                     v = reading(r)
                     if abs(v - thr) <= band:
